@@ -87,7 +87,14 @@ def _keyspec(spec):
 def _live_cols(spec):
     if spec is None:
         return None
-    mk = lambda it: it if isinstance(it, str) else eval('lambda %s: %s' % (it['f'], it['f']))
+    def mk(it):
+        if isinstance(it, str):
+            return it
+        if it.get('p') and it['p'] != it['f']:
+            # a computed key that is a functools.partial: its first parameter (named like another column of the table) is already bound
+            import functools
+            return functools.partial(eval('lambda %s, %s: %s' % (it['p'], it['f'], it['f'])), 0)
+        return eval('lambda %s: %s' % (it['f'], it['f']))
     if 's' in spec:
         return mk(spec['s'])
     if 'f1' in spec:
@@ -395,6 +402,8 @@ def keycell(rng, kind):
         return rng.choice([{'$dt': '2020-01-01T00:00:00'}, {'$dt': '2020-01-02T00:00:00'}, None])
     if kind == 'pdts':       # dates read from a DataFrame (pandas Timestamps) next to hand-typed datetimes
         return rng.choice([{'$dt': '2020-01-01T00:00:00'}, {'$pdts': '2020-01-01T00:00:00'}, {'$pdts': '2020-01-02T00:00:00'}, {'$dt': '2020-01-02T00:00:00'}, {'$pdts': '2020-01-03T12:00:00'}])
+    if kind == 'pdns':       # stamps a few nanoseconds apart (pandas Timestamps carry them): different instants, different keys
+        return rng.choice([{'$pdts': '2020-01-01T00:00:00'}, {'$pdts': '2020-01-01T00:00:00.000000001'}, {'$pdts': '2020-01-01T00:00:00.000000002'}, {'$pdts': '2020-01-01T00:00:00.000000007'}, {'$dt': '2020-01-01T00:00:00'}, {'$pdts': '2020-01-01T00:00:00.000001'}])
     if kind == 'mixed':
         return rng.choice([None, 0, 1, 1.0, 2.5, {'$nan': rng.randrange(1000)}, {'$nan': 'np'}, 'x', 'y', 'aa', 'b', '', {'$dt': '2020-01-01T00:00:00'}, {'$dt': '2021-06-30T12:00:00'}])
     raise ValueError(kind)
@@ -402,7 +411,7 @@ def keycell(rng, kind):
 
 def gen_case(rng, maxrows):
     nk = rng.choice([0, 1, 1, 1, 2, 2, 3])
-    kinds = [rng.choice(['int', 'str', 'num', 'nan', 'none', 'dt', 'mixed', 'mixed', 'bigint', 'npfloat', 'pdts', 'inf']) for _ in range(nk)]
+    kinds = [rng.choice(['int', 'str', 'num', 'nan', 'none', 'dt', 'mixed', 'mixed', 'bigint', 'npfloat', 'pdts', 'inf', 'pdns']) for _ in range(nk)]
     nl = rng.choice([0, 1, 2, 3, 4, 5, 6, maxrows])
     nr = rng.choice([0, 1, 2, 3, 4, 5, 6, maxrows])
     style = rng.choice(['implicit', 'same', 'same', 'diff', 'diff', 'lfun', 'rfun'])
@@ -441,6 +450,9 @@ def gen_case(rng, maxrows):
     else:
         def spell(names, funs):
             items = [({'f': n} if f else n) for n, f in zip(names, funs)]
+            for it_ in items:
+                if isinstance(it_, dict) and rng.random() < 0.4:
+                    it_['p'] = 'id' if names is lnames else 'rid'
             if len(items) == 1 and rng.random() < 0.5:
                 return {'s': items[0]} if isinstance(items[0], str) else {'f1': items[0]}
             return {rng.choice(['list', 'tuple']): items}
@@ -492,7 +504,7 @@ def rename_columns(case):
         if isinstance(x, list):
             return [rn(v) for v in x]
         if isinstance(x, dict):
-            return {(k if k in ('s', 'f', 'f1', 'list', 'tuple', 'fn') else rn(k)): rn(v) for k, v in x.items()}
+            return {(k if k in ('s', 'f', 'f1', 'list', 'tuple', 'fn', 'p') else rn(k)): rn(v) for k, v in x.items()}
         return x
     out = dict(case)
     for side in ('x', 'y'):
